@@ -75,6 +75,19 @@ def exhaust_ok2(xs):
     return out
 
 
+def exhaust_ok3(xs, need):
+    cursor = iter(xs)
+    got = []
+    while len(got) < need:
+        for x in cursor:
+            if x > 0:
+                break
+        else:
+            return None
+        got.append(x)
+    return got
+
+
 def itermut1(d):
     for k, v in d.items():
         if v is None:
@@ -320,3 +333,31 @@ def axisorder_ok(chips):
     width = max(x for x, _ in chips) + 1
     height = max(y for _, y in chips) + 1
     return width, height
+
+
+def packkey1(x, y, level, cache):
+    key = x + (y << 8) + (level << 8)
+    if key in cache:
+        return cache[key]
+    v = cache[key] = (x, y, level)
+    return v
+
+
+def packkey_ok(x, y, level, cache, data, i):
+    key = x | (y << 8) | (level << 16)
+    if key not in cache:
+        cache[key] = (x, y, level)
+    return cache[key], data[i + (x << 2)]
+
+
+class TemplateError(Exception):
+    def __init__(self, message="", *fields):
+        super(TemplateError, self).__init__(message.format(*fields))
+
+
+def reformat1(resource, xy):
+    raise TemplateError("{} over-allocated on {}".format(resource, xy))
+
+
+def reformat_ok(resource, xy):
+    raise TemplateError("{} over-allocated on {}", resource, xy)
